@@ -46,6 +46,7 @@ type Contract struct {
 	Results    []SParam
 	Assigns    []AssignClause
 	GhostSets  []GhostSet
+	Preserves  []Clause // with `modifies *`: field heaps (Type.field) the callee never writes
 	Lemma      bool
 	Fresh      []string // result names that are freshly allocated
 	NoPanic    bool     // trusted: function does not panic (default for trusted)
@@ -80,6 +81,7 @@ type GhostDecl struct {
 	Params []*SType
 	Result *SType
 	IsVar  bool // mutable ghost map (part of state)
+	Internal bool // accounting state that only first-party code under contract can change (`ghost ivar`)
 	Pkg    string
 }
 
@@ -371,6 +373,22 @@ func (cs *Contracts) loadFile(path, pkgPath, pkgName string) error {
 			cur.HasMod = true
 			cur.Modifies = append(cur.Modifies, Clause{Src: rest[:i], E: te, File: path, Line: ln})
 			cur.Ensures = append(cur.Ensures, Clause{Src: rest[:i] + " == " + rest[i+4:] + "   (ghostset)", E: &SBinary{"==", te, ve}, File: path, Line: ln})
+		case "preserves":
+			for _, part := range splitTop(strings.ReplaceAll(rest, " ", ",")) {
+				part = strings.TrimSpace(part)
+				if part == "" {
+					continue
+				}
+				if strings.HasSuffix(part, ".*") {
+					cur.Preserves = append(cur.Preserves, Clause{Src: part, File: path, Line: ln})
+					continue
+				}
+				c, err := mk(part)
+				if err != nil {
+					return err
+				}
+				cur.Preserves = append(cur.Preserves, c)
+			}
 		case "loop":
 			n, err := strconv.Atoi(strings.TrimSuffix(rest, ":"))
 			if err != nil {
@@ -388,7 +406,8 @@ func (cs *Contracts) loadFile(path, pkgPath, pkgName string) error {
 			if err != nil {
 				return fmt.Errorf("%s:%d: %v", path, ln, err)
 			}
-			g.IsVar = fs[0] == "var"
+			g.IsVar = fs[0] == "var" || fs[0] == "ivar"
+			g.Internal = fs[0] == "ivar"
 			g.Pkg = pkgPath
 			if _, dup := cs.Ghosts[g.Name]; dup {
 				return fmt.Errorf("%s:%d: duplicate ghost %s", path, ln, g.Name)
